@@ -25,9 +25,9 @@ from dataclasses import dataclass, field
 
 from core.guards import Formula, atom, atoms_of, conds_formula, f_and, f_not, f_or, implies, show, to_formula
 from core.inline_stmt import Inliner
-from core.loader import AnalysisError, FuncInfo, Repo, ancestors, calls_in, norm, own_nodes, parent, set_parents
+from core.loader import AnalysisError, FuncInfo, Repo, ancestors, norm, own_nodes, parent, set_parents
 
-from .common import bool_inliner, cfg_of, conds, dotted, guard_formula, is_attr_call, stmt_of, types_of, where
+from .common import bool_inliner, cfg_of, conds, dotted, stmt_of, types_of
 from .tables import SEARCHES
 
 SUCC = "direct_successor_nodes"
